@@ -90,14 +90,22 @@ func (x *wireExtractor) undecodedReads(body *ast.BlockStmt) map[*ast.CallExpr]bo
 	readVar := map[*ast.CallExpr]types.Object{}
 	var allReads []*ast.CallExpr
 	decoded := map[types.Object]bool{}
+	handedOn := map[*ast.CallExpr]bool{}
 	ast.Inspect(body, func(n ast.Node) bool {
 		switch n := n.(type) {
 		case *ast.FuncLit:
 			return false
+		case *ast.ReturnStmt:
+			// `return data.Read(a, b)`: the bytes go to the caller, which decodes them or not
+			if len(n.Results) == 1 {
+				if call, ok := ast.Unparen(n.Results[0]).(*ast.CallExpr); ok {
+					handedOn[call] = true
+				}
+			}
 		case *ast.AssignStmt:
 			if len(n.Rhs) == 1 {
 				if call, ok := ast.Unparen(n.Rhs[0]).(*ast.CallExpr); ok {
-					if _, full := x.calleeOf(call); strings.HasSuffix(full, "bluge_segment_api.*Data.Read") && len(n.Lhs) >= 1 {
+					if _, full := x.calleeOf(call); (strings.HasSuffix(full, "bluge_segment_api.*Data.Read") || x.forwardsRead(call)) && len(n.Lhs) >= 1 {
 						if id, ok := n.Lhs[0].(*ast.Ident); ok {
 							readVar[call] = x.info.ObjectOf(id)
 						}
@@ -106,7 +114,7 @@ func (x *wireExtractor) undecodedReads(body *ast.BlockStmt) map[*ast.CallExpr]bo
 			}
 		case *ast.CallExpr:
 			fn, full := x.calleeOf(n)
-			if fn != nil && strings.HasSuffix(full, "bluge_segment_api.*Data.Read") {
+			if fn != nil && (strings.HasSuffix(full, "bluge_segment_api.*Data.Read") || x.forwardsRead(n)) {
 				allReads = append(allReads, n)
 			}
 			if fn != nil && strings.HasPrefix(full, "encoding/binary.") {
@@ -130,11 +138,44 @@ func (x *wireExtractor) undecodedReads(body *ast.BlockStmt) map[*ast.CallExpr]bo
 	})
 	// every read is a raw payload read unless its result variable is handed to a decode primitive
 	for _, call := range allReads {
+		if handedOn[call] {
+			continue
+		}
 		if obj, ok := readVar[call]; !ok || obj == nil || !decoded[obj] {
 			out[call] = true
 		}
 	}
 	return out
+}
+
+// forwardsRead: call is to an in-package function that hands the bytes of a
+// storage read straight to its caller (`return c.data.Read(lo, hi)`): for
+// the caller it is a read.
+func (x *wireExtractor) forwardsRead(call *ast.CallExpr) bool {
+	fn, _ := x.calleeOf(call)
+	if fn == nil || fn.Pkg() != x.c.Root.Types {
+		return false
+	}
+	decl := x.c.declOf[fn]
+	if decl == nil || decl.Body == nil {
+		return false
+	}
+	sig := fn.Type().(*types.Signature)
+	if sig.Results().Len() != 2 || !isByteSlice(sig.Results().At(0).Type()) {
+		return false
+	}
+	found := false
+	ast.Inspect(decl.Body, func(n ast.Node) bool {
+		if ret, ok := n.(*ast.ReturnStmt); ok && len(ret.Results) == 1 {
+			if c2, ok := ast.Unparen(ret.Results[0]).(*ast.CallExpr); ok {
+				if _, full := x.calleeOf(c2); strings.HasSuffix(full, "bluge_segment_api.*Data.Read") {
+					found = true
+				}
+			}
+		}
+		return true
+	})
+	return found
 }
 
 func unusedReadVars(readVar map[*ast.CallExpr]types.Object, decoded map[types.Object]bool) map[*ast.CallExpr]bool {
@@ -440,9 +481,43 @@ func isBlank(e ast.Expr) bool {
 
 // unsubst: the element an unrolled loop variable currently stands for.
 func (x *wireExtractor) unsubst(e ast.Expr) ast.Expr {
-	if id, ok := ast.Unparen(e).(*ast.Ident); ok && x.subst != nil {
-		if r, ok := x.subst[x.info.Uses[id]]; ok {
+	if x.subst == nil {
+		return e
+	}
+	switch y := ast.Unparen(e).(type) {
+	case *ast.Ident:
+		if r, ok := x.subst[x.info.Uses[y]]; ok {
 			return r
+		}
+	case *ast.SelectorExpr:
+		// a field of the element of an unrolled table of struct literals: f.val with f
+		// standing for {"what", footer.numDocs}
+		id, ok := ast.Unparen(y.X).(*ast.Ident)
+		if !ok {
+			return e
+		}
+		r, ok := x.subst[x.info.Uses[id]]
+		if !ok {
+			return e
+		}
+		lit, ok := ast.Unparen(r).(*ast.CompositeLit)
+		if !ok {
+			return e
+		}
+		st, ok := x.info.TypeOf(lit).Underlying().(*types.Struct)
+		if !ok {
+			return e
+		}
+		for i, el := range lit.Elts {
+			if kv, ok := el.(*ast.KeyValueExpr); ok {
+				if k, ok := kv.Key.(*ast.Ident); ok && k.Name == y.Sel.Name {
+					return kv.Value
+				}
+				continue
+			}
+			if i < st.NumFields() && st.Field(i).Name() == y.Sel.Name {
+				return el
+			}
 		}
 	}
 	return e
@@ -553,6 +628,11 @@ func (x *wireExtractor) carryOf(e ast.Expr) string {
 		if e.Op == token.AND {
 			return x.carryOf(e.X) // binary.Write/Read take pointers as well
 		}
+	case *ast.StarExpr:
+		// *f.dst with f.dst standing for &rv.field (a table of destinations)
+		if r := x.unsubst(e.X); r != e.X {
+			return x.carryOf(r)
+		}
 	case *ast.SelectorExpr:
 		if sel := x.info.Selections[e]; sel != nil && sel.Kind() == types.FieldVal {
 			// owner type name . field
@@ -659,6 +739,41 @@ func (x *wireExtractor) expr(e ast.Expr) []wireItem {
 func (x *wireExtractor) call(call *ast.CallExpr) []wireItem {
 	fn, full := x.calleeOf(call)
 	if fn == nil {
+		// a local function literal (emit := func(piece []byte) error { … c.w.Write(piece) … }):
+		// its body with the parameters standing for the arguments of this call
+		if lit := x.localFuncLit(call.Fun); lit != nil && x.depth <= 4 && len(lit.Type.Params.List) > 0 {
+			var params []*ast.Ident
+			for _, f := range lit.Type.Params.List {
+				params = append(params, f.Names...)
+			}
+			if len(params) == len(call.Args) {
+				if x.subst == nil {
+					x.subst = map[types.Object]ast.Expr{}
+				}
+				saved := map[types.Object]ast.Expr{}
+				for i, p := range params {
+					if obj := x.info.Defs[p]; obj != nil {
+						if old, ok := x.subst[obj]; ok {
+							saved[obj] = old
+						}
+						x.subst[obj] = x.unsubst(call.Args[i])
+					}
+				}
+				x.depth++
+				items := x.block(lit.Body.List)
+				x.depth--
+				for _, p := range params {
+					if obj := x.info.Defs[p]; obj != nil {
+						if old, ok := saved[obj]; ok {
+							x.subst[obj] = old
+						} else {
+							delete(x.subst, obj)
+						}
+					}
+				}
+				return items
+			}
+		}
 		return nil
 	}
 	at := call.Pos()
@@ -700,7 +815,7 @@ func (x *wireExtractor) call(call *ast.CallExpr) []wireItem {
 			it[0].buf = carrierName(call.Args[0])
 			return it
 		case fn.Name() == "Write" && len(call.Args) == 1 && fn.Type().(*types.Signature).Recv() != nil && isByteSlice(x.info.TypeOf(call.Args[0])):
-			arg := ast.Unparen(call.Args[0])
+			arg := ast.Unparen(x.unsubst(call.Args[0]))
 			if x.isCarrier(arg) {
 				return nil
 			}
@@ -747,6 +862,11 @@ func (x *wireExtractor) call(call *ast.CallExpr) []wireItem {
 				return mk("RAW", "")
 			}
 			return nil
+		case x.forwardsRead(call):
+			if x.rawReads[call] {
+				return mk("RAW", "")
+			}
+			return nil
 		}
 	}
 	// inline in-package callees that are pure emitters/decoders of part of the caller's record
@@ -754,6 +874,8 @@ func (x *wireExtractor) call(call *ast.CallExpr) []wireItem {
 		var sub []wireItem
 		if sig := fn.Type().(*types.Signature); sig.Variadic() && !call.Ellipsis.IsValid() && len(call.Args) >= sig.Params().Len()-1 && fn.Name() != "writeUvarints" {
 			sub = x.sigWithVariadic(fn, call.Args[sig.Params().Len()-1:])
+		} else if x.hasOpaqueParam(sig) && len(call.Args) == sig.Params().Len() {
+			sub = x.sigWithArgs(fn, call.Args)
 		} else {
 			sub = x.sigOf(fn)
 		}
@@ -978,4 +1100,114 @@ func (x *wireExtractor) forwardedConst(owner, field string) string {
 		return ""
 	}
 	return found
+}
+
+// localFuncLit: fun is a local variable that is defined once, by a function
+// literal, in one of the functions being extracted: that literal.
+func (x *wireExtractor) localFuncLit(fun ast.Expr) *ast.FuncLit {
+	id, ok := ast.Unparen(fun).(*ast.Ident)
+	if !ok {
+		return nil
+	}
+	obj, ok := x.info.Uses[id].(*types.Var)
+	if !ok || obj.Pkg() == nil || obj.Parent() == obj.Pkg().Scope() {
+		return nil
+	}
+	var lit *ast.FuncLit
+	n := 0
+	for _, body := range x.bodies {
+		ast.Inspect(body, func(nd ast.Node) bool {
+			switch s := nd.(type) {
+			case *ast.AssignStmt:
+				for i, lhs := range s.Lhs {
+					lid, ok := ast.Unparen(lhs).(*ast.Ident)
+					if !ok || i >= len(s.Rhs) {
+						continue
+					}
+					if x.info.Defs[lid] == types.Object(obj) || x.info.Uses[lid] == types.Object(obj) {
+						n++
+						if fl, ok := ast.Unparen(s.Rhs[i]).(*ast.FuncLit); ok {
+							lit = fl
+						} else {
+							lit = nil
+							n++
+						}
+					}
+				}
+			case *ast.ValueSpec:
+				for i, nm := range s.Names {
+					if x.info.Defs[nm] == types.Object(obj) && i < len(s.Values) {
+						n++
+						if fl, ok := ast.Unparen(s.Values[i]).(*ast.FuncLit); ok {
+							lit = fl
+						}
+					}
+				}
+			}
+			return true
+		})
+	}
+	if n != 1 {
+		return nil
+	}
+	return lit
+}
+
+// hasOpaqueParam: the helper takes a value whose wire width is only known at
+// the call (an interface{} handed on to binary.Write/Read).
+func (x *wireExtractor) hasOpaqueParam(sig *types.Signature) bool {
+	for i := 0; i < sig.Params().Len(); i++ {
+		if it, ok := sig.Params().At(i).Type().Underlying().(*types.Interface); ok && it.NumMethods() == 0 {
+			return true
+		}
+	}
+	return false
+}
+
+// sigWithArgs: the signature of obj's body with its empty-interface
+// parameters standing for the arguments of one call (not cached).
+func (x *wireExtractor) sigWithArgs(obj *types.Func, args []ast.Expr) []wireItem {
+	if x.active[obj] || x.depth > 4 {
+		return nil
+	}
+	decl := x.c.declOf[obj]
+	sig := obj.Type().(*types.Signature)
+	if decl == nil || decl.Body == nil {
+		return nil
+	}
+	if x.subst == nil {
+		x.subst = map[types.Object]ast.Expr{}
+	}
+	var bound []types.Object
+	for i := 0; i < sig.Params().Len(); i++ {
+		p := sig.Params().At(i)
+		if it, ok := p.Type().Underlying().(*types.Interface); ok && it.NumMethods() == 0 {
+			if _, taken := x.subst[p]; !taken {
+				x.subst[p] = x.unsubst(args[i])
+				bound = append(bound, p)
+			}
+		}
+	}
+	defer func() {
+		for _, p := range bound {
+			delete(x.subst, p)
+		}
+	}()
+	x.active[obj] = true
+	x.depth++
+	saved := x.carrier
+	x.carrier = map[string]bool{}
+	savedRaw := x.rawReads
+	x.rawReads = x.undecodedReads(decl.Body)
+	defer func() { x.rawReads = savedRaw }()
+	x.bodies = append(x.bodies, decl.Body)
+	items := x.block(decl.Body.List)
+	x.bodies = x.bodies[:len(x.bodies)-1]
+	if x.mode == "w" {
+		items = x.dropUnwritten(items, decl.Body)
+	}
+	x.carrier = saved
+	x.depth--
+	delete(x.active, obj)
+	return items
 }
